@@ -57,6 +57,7 @@ struct Schema {
   int size_bits = 0;
   bool size_sgn = false;
   bool unbounded = false;  // NOP_UNBOUNDED_BUFFER
+  bool boolean = false;    // Bin whose elements are bool: generated element bytes are 0/1 only
   bool ordered = true;    // Map: std::map (true) / std::unordered_map (false)
   uint64_t hash = 0;      // Tab
   uint64_t htype = 0;     // Hnd: policy handle type
